@@ -133,13 +133,14 @@ def record_calls(cont, data, requests, label):
         for skip in (True, False):
             metas = list(cont.get_objects_meta(list(req), skip_if_missing=skip))
             lines.append({'call': 'meta', 'label': label, 'req': req, 'skip': skip,
-                          'bulk': [{'k': k, 'v': 'MISSING' if m.type.value == 'missing' else
+                          'bulk': [{'k': k, 'w': m.type.value, 'v': 'MISSING' if m.type.value == 'missing' else
                                     f'{m.type.value}:{m.size}:{bool(m.pack_compressed)}:{m.pack_length}'} for k, m in metas],
                           'single': [{'k': k, 'v': single_meta(k)} for k in distinct], 'flags': []})
             entries = []
             with cont.get_objects_stream_and_meta(list(req), skip_if_missing=skip) as triplets:
-                for k, stream, _meta in triplets:
-                    entries.append({'k': k, 'v': 'MISSING' if stream is None else hashlib.sha1(stream.read()).hexdigest()[:12]})
+                for k, stream, meta in triplets:
+                    entries.append({'k': k, 'w': meta.type.value,
+                                    'v': 'MISSING' if stream is None else hashlib.sha1(stream.read()).hexdigest()[:12]})
             lines.append({'call': 'streams', 'label': label, 'req': req, 'skip': skip, 'bulk': entries,
                           'single': [{'k': k, 'v': single_content(k)} for k in distinct], 'flags': []})
             got = cont.get_objects_content(list(req), skip_if_missing=skip)
@@ -206,6 +207,31 @@ def maintenance_same(workdir, thresholds):
     return summary
 
 
+BULK_CONFIGS = [('MC_Bulk_in1', None), ('MC_Bulk_quiet', None), ('MC_Bulk_in2_skip', None), ('MC_Bulk_in2_noskip', None), ('MC_Bulk_scan', None),
+                ('MC_BulkDev_RequestList', 'EachKeyOnce'), ('MC_BulkDev_RetryDup', 'EachKeyOnce'), ('MC_BulkDev_NoRetry', 'Pointwise')]
+
+
+def design(report):
+    """Bulk.tla: the lookup generator transcribed (IN-chunks / sorted scan, loose pass, retry on a fresh session, missing
+    keys), all request sequences of length <= 4 over {packed, packed since the snapshot, loose, missing}."""
+    out = []
+    for cfg, expect in BULK_CONFIGS:
+        res = tlc.run('MC_Bulk', cfg + '.cfg', workers=2, timeout=600)
+        if res.timeout or (res.error_lines and not res.violated):
+            tlc.machinery_failure(res, cfg)
+        out.append({'config': cfg, 'expected': expect or 'holds', **res.summary()})
+        if expect is None and res.violated:
+            print(f'DESIGN-COUNTEREXAMPLE property={report.prop} config={cfg} invariant={res.violated}')
+            raise SystemExit(2)
+        if expect is not None and expect not in res.violated:
+            print(f'MACHINERY-FAILURE: deviation {cfg} no longer violates {expect}')
+            raise SystemExit(2)
+        if expect is None:
+            report.add('states', res.distinct)
+            report.add('transitions', res.generated)
+    report.set('design_model_bulk', out)
+
+
 def check_C16(report: common.Report):
     common.import_lib()
     from disk_objectstore import Container  # pylint: disable=import-outside-toplevel
@@ -213,6 +239,7 @@ def check_C16(report: common.Report):
     thorough = report.tier == 'thorough'
     rng = common.rng('C16')
     merge_replay(report)
+    design(report)
     lines = []
     defaults = (Container._IN_SQL_MAX_LENGTH, Container._MAX_CHUNK_ITERATE_LENGTH)  # pylint: disable=protected-access
     with common.scratch('bk') as work:
@@ -256,7 +283,7 @@ def check_C16(report: common.Report):
         cfg = os.path.join(work, 'BulkTrace.cfg')
         with open(cfg, 'w', encoding='utf8') as handle:
             handle.write('SPECIFICATION Spec\nINVARIANT C16_EachKeyOnce\nINVARIANT C16_BulkIsPointwise\n'
-                         'INVARIANT C16_FlagsPositional\nINVARIANT C16_SameOutcome\nCHECK_DEADLOCK FALSE\n')
+                         'INVARIANT C16_FlagsPositional\nINVARIANT C16_SameOutcome\nINVARIANT Conf_PhaseOrder\nCHECK_DEADLOCK FALSE\n')
         res = tlc.run('BulkTrace', cfg, workers=1, timeout=1500, args=['-continue'], env={'TRACE_FILE': trace_file})
     hits = []
     for chunk in re.split(r'(?=Error: Invariant \w+ is violated)', res.output):
@@ -275,6 +302,11 @@ def check_C16(report: common.Report):
             continue
         seen.add(key)
         short = {k: (v if k != 'req' else [x[:6] for x in v][:20]) for k, v in line.items() if k not in ('single', 'bulk')}
+        if inv.startswith('Conf_'):
+            print(f"MODEL-DRIFT property=C16 at=bulk call {short}: {inv}: the order of the results "
+                  f"{[e.get('w') for e in line['bulk']][:20]} is not an output of Bulk.tla (packed, then loose, then missing)")
+            report.note(f'model drift: {inv} on {short}')
+            continue
         report.violation({'invariant': inv, 'call': line['call']}, {'driver': 'bulk', 'line': short},
                          f"{inv}: {short} bulk={[(e['k'][:6], e['v']) for e in line['bulk']][:12]} "
                          f"single={[(e['k'][:6], e['v']) for e in line['single']][:12]}")
